@@ -497,10 +497,19 @@ func (r *Run) SubstParams(term string, call ssa.CallInstruction) (string, bool) 
 // builtins and static functions from outside the module, writes nothing but its own
 // locals, and neither spawns, defers, sends nor selects.  (What such a helper returns can
 // be decided inside it and carried to the call site; it cannot touch the caller's state.)
-func PureOfArgs(fn *ssa.Function) (bool, string) {
+func PureOfArgs(fn *ssa.Function) (bool, string) { return pureOfArgs(fn, map[*ssa.Function]bool{}) }
+
+// pureOfArgs: a module callee is allowed when it is itself a pure function of its arguments
+// (e.g. the monomorphic min/max models the normaliser generates); recursion is refused.
+func pureOfArgs(fn *ssa.Function, busy map[*ssa.Function]bool) (bool, string) {
 	if fn == nil || len(fn.Blocks) == 0 {
 		return false, "no body"
 	}
+	if busy[fn] || len(busy) > 8 {
+		return false, "recursive or too deep"
+	}
+	busy[fn] = true
+	defer delete(busy, fn)
 	why := ""
 	eachInstr(fn, func(in ssa.Instruction) {
 		if why != "" {
@@ -518,7 +527,9 @@ func PureOfArgs(fn *ssa.Function) (bool, string) {
 				return
 			}
 			if f.Pkg != nil && f.Pkg.Pkg != nil && strings.HasPrefix(f.Pkg.Pkg.Path(), ModPath) {
-				why = "calls " + FuncName(f) + " of the module"
+				if ok, w := pureOfArgs(f, busy); !ok {
+					why = "calls " + FuncName(f) + " of the module (" + w + ")"
+				}
 			}
 		case *ssa.Store:
 			if addrBase(x.Addr) == nil {
